@@ -1,12 +1,14 @@
 //! vcheck — property-based checks for broxus/cassadilia (see /verif/DESIGN.md).
 
 #![allow(dead_code)]
+mod alloc;
 mod common;
 mod e2;
 mod fault;
 mod fsmodel;
 mod proc;
 mod props_e2;
+mod props_misc;
 mod engine;
 mod gen;
 mod ondisk;
@@ -16,6 +18,9 @@ mod seq;
 use std::sync::Mutex;
 
 use engine::*;
+
+#[global_allocator]
+static GLOBAL: alloc::Counting = alloc::Counting;
 
 pub struct Part {
     pub rule: String,
@@ -44,6 +49,10 @@ fn parts(id: &'static str, tier: Tier, seed: u64) -> Vec<Part> {
         "C01" | "C02" | "C07" | "C13" | "C18" => vec![seq_part(id, tier, seed)],
         "C06" | "C12" | "C20" => vec![seq_part(id, tier, seed), e2_part(id, tier)],
         "C03" | "C09" | "C08" => vec![e2_part(id, tier)],
+        "C17" => vec![Part { rule: props_misc::C17_RULE.to_string(), run: Box::new(|ctx, acc| props_misc::run_c17(ctx, acc)) }],
+        "C19" => vec![Part { rule: props_misc::C19_RULE.to_string(), run: Box::new(|ctx, acc| props_misc::run_c19(ctx, acc)) }],
+        "C10" => vec![Part { rule: props_misc::C10_RULE.to_string(), run: Box::new(|ctx, acc| props_misc::run_c10(ctx, acc)) }],
+        "C16" => vec![Part { rule: props_misc::C16_RULE.to_string(), run: Box::new(|ctx, acc| props_misc::run_c16(ctx, acc)) }],
         "C14" => vec![Part { rule: props_e2::C14_RULE.to_string(), run: Box::new(|ctx, acc| props_e2::run_c14(ctx, acc)) }],
         _ => vec![],
     }
@@ -115,6 +124,10 @@ fn replay_case(id: &'static str, engine: &str, case: serde_json::Value) -> R<Cas
         "E1" => props_seq::replay_seq(id, case),
         "E2" => props_e2::replay_e2(id, case),
         "E2F" => props_e2::replay_c14(case),
+        "C17" => props_misc::replay_c17(case),
+        "C19" => props_misc::replay_c19(case),
+        "C10" => props_misc::replay_c10(case),
+        "C16" => props_misc::replay_c16(case),
         other => panic!("harness: unknown engine {other} in replay"),
     }
 }
